@@ -114,7 +114,7 @@ theorem invRe_step (s : St) (e : Ev) (s' : St) (hi : InvRe s) (h : step s e = so
 /-! ### (X) why an actor stops: `Stopped` needs a consumed stop request (or a dropped spawn future) -/
 
 def Pc.exit? : Pc → Option Exit
-  | .finBegin e | .finPreStop e | .finDropRx e | .finPostStop e | .finRelease e | .exited e => some e
+  | .finBegin e | .finPreStop e | .finDropRx e | .finPostStop e | .finRelease e | .finNotify e | .exited e => some e
   | _ => none
 
 def InvX (s : St) : Prop := s.pc.exit? = some .stopped → s.stopConsumed = true ∨ s.detached = true
